@@ -516,6 +516,123 @@ def r_exportorder(prog, R):
     r.require(n >= 3, "fewer than 3 exporters of the server list found")
 
 
+def _fmt_tokens(fmt):
+    """printf format -> list of ('lit', text) / ('conv', letter); None if it uses anything but plain %s %d %u %c %%"""
+    out, i, lit = [], 0, ""
+    while i < len(fmt):
+        ch = fmt[i]
+        if ch != "%":
+            lit += ch
+            i += 1
+            continue
+        if i + 1 >= len(fmt):
+            return None
+        nx = fmt[i + 1]
+        if nx == "%":
+            lit += "%"
+            i += 2
+            continue
+        if nx not in "sduc":
+            return None
+        if lit:
+            out.append(("lit", lit))
+            lit = ""
+        out.append(("conv", nx))
+        i += 2
+    if lit:
+        out.append(("lit", lit))
+    return out
+
+
+def r_zonefmt(prog, R):
+    r = R.rule("R-C16-ZONEFMT", "a link-local server is rendered as <address>%<interface> with exactly the one character the readers split on between them, in the URI form and in the "
+               "plain form: what ares_get_servers_csv prints is what ares_set_servers_csv (and through it ares_dup) reads back", floor=2,
+               analysis="printf format / append sequence of the writers interpreted against the delimiter constant of the readers (sibling agreement)")
+    # readers: functions that fill ->ll_iface split the host at one character
+    delims = set()
+    for f in prog.funcs.values():
+        if f.file not in ("src/lib/ares_update_servers.c", "src/lib/ares_sysconfig_files.c", "src/lib/util/ares_uri.c"):
+            continue
+        fills = any(c.get("callee") in ("ares_strcpy", "ares_buf_tag_fetch_string", "ares_buf_fetch_bytes_into_buf") and c.get("args") and is_field(c["args"][0], "ll_iface") for _, _, c in f.calls())
+        if not fills:
+            continue
+        for b, i, c in f.calls():
+            if c.get("callee") == "strchr" and len(c.get("args", [])) == 2 and const_val(c["args"][1]) is not None:
+                delims.add(const_val(c["args"][1]))
+    if not r.require(delims == {ord("%")}, "readers of ->ll_iface do not split the host at a single known character (%s)" % sorted(delims)):
+        return
+    d = "%"
+    n = 0
+    for f in sorted(prog.funcs.values(), key=lambda x: x.key):
+        if f.file != "src/lib/ares_update_servers.c":
+            continue
+        for b, i, c in f.calls():
+            args = c.get("args", [])
+            if c.get("callee") == "snprintf" and any(is_field(a, "ll_iface") for a in args[3:]):
+                n += 1
+                k = "fn=%s URI host = address %s interface" % (f.name, d)
+                fm = strip(args[2])
+                toks = _fmt_tokens(fm["s"]) if fm is not None and fm.get("k") == "str" else None
+                if toks is None:
+                    r.broke("%s: format of the host string not interpretable" % f.name)
+                    continue
+                convs = [t for t in toks if t[0] == "conv"]
+                ai = 3
+                shape = []
+                for t in toks:
+                    if t[0] == "lit":
+                        shape.append(t[1])
+                    else:
+                        a = strip(args[ai]) if ai < len(args) else None
+                        ai += 1
+                        if t[1] == "c" and a is not None and const_val(a) is not None:
+                            shape.append(chr(const_val(a)))
+                        elif is_field(a, "ll_iface"):
+                            shape.append("<iface>")
+                        else:
+                            shape.append("<x>")
+                # merge adjacent literals
+                merged = []
+                for x in shape:
+                    if merged and not merged[-1].startswith("<") and not x.startswith("<"):
+                        merged[-1] += x
+                    else:
+                        merged.append(x)
+                if merged == ["<x>", d, "<iface>"]:
+                    r.ok(k, f.loc(c["ln"]))
+                else:
+                    r.viol(k, f.name, f.loc(c["ln"]), "the host of a link-local server is rendered as %s: the readers (strchr(host, '%%')) take everything behind the first '%%' as the interface name, so "
+                           "the name read back is not the one written, the interface cannot be resolved and the server is silently dropped by ares_set_servers_csv / ares_dup" % " ".join(merged))
+            if c.get("callee") == "ares_buf_append_str" and len(args) == 2 and is_field(args[1], "ll_iface"):
+                n += 1
+                k = "fn=%s plain form = .. %s interface" % (f.name, d)
+                # nearest preceding append on every path
+                seen, work, prevs = set(), [(b.id, i - 1)], []
+                while work:
+                    bid, j = work.pop()
+                    blk = f.blocks[bid]
+                    found = False
+                    while j >= 0:
+                        e2 = blk.els[j]
+                        if e2["k"] == "call" and (e2["e"].get("callee") or "").startswith("ares_buf_append"):
+                            prevs.append(e2["e"])
+                            found = True
+                            break
+                        j -= 1
+                    if found:
+                        continue
+                    for pb in blk.preds:
+                        if pb not in seen:
+                            seen.add(pb)
+                            work.append((pb, len(f.blocks[pb].els) - 1))
+                good = prevs and all(p_.get("callee") == "ares_buf_append_byte" and const_val(p_["args"][1]) == ord(d) for p_ in prevs)
+                if good:
+                    r.ok(k, f.loc(c["ln"]))
+                else:
+                    r.viol(k, f.name, f.loc(c["ln"]), "the interface name is appended after %s instead of after the single character '%%' the readers split on" % sorted({render(p_) for p_ in prevs})[:2])
+    r.require(n >= 2, "fewer writers of ->ll_iface than confirmed by hand (%d)" % n)
+
+
 def run(prog, R, tier):
     R.assume("string-level round trip of the server list (CSV/URI rendering) is not decided here")
     init = r_mask(prog, R)
@@ -526,4 +643,9 @@ def run(prog, R, tier):
     r_exportorder(prog, R)
     r_setatomic(prog, R)
     r_duporder(prog, R)
+    r_zonefmt(prog, R)
+    # what save/dup/apply copy is copied whole: arrays are sized in units of their element type
+    import sizerules
+    sizerules.elemsize_rule(prog, R, "R-C16-ELEMSIZE", files={"src/lib/ares_options.c", "src/lib/ares_init.c", "src/lib/ares_sysconfig.c", "src/lib/ares_sysconfig_files.c",
+                                                             "src/lib/ares_update_servers.c", "src/lib/ares_sortaddrinfo.c", "src/lib/ares_socket.c"}, floor=15)
     outinit.outinit_rule(prog, R, "R-C16-OUTINIT", only_types=("ares_sconfig_t", "ares_options", "apattern"), floor=2)
